@@ -42,7 +42,7 @@ func ForEachInstrAll(fn *ssa.Function, out map[string]int) {
 				out["single-value-type-assertion"]++
 			}
 		case *ssa.Store:
-			if _, ok := x.Addr.(*ssa.Global); ok && fn.Name() != "init" {
+			if _, ok := x.Addr.(*ssa.Global); ok && N(fn) != "init" {
 				out["package-variable-store"]++
 			}
 		case ssa.CallInstruction:
